@@ -162,6 +162,8 @@ pub fn profile(prop: &str) -> Profile {
             p.w_sub = 8;
             p.w_cutoff = 5;
             p.hfx_pct = 30;
+            // memoised constructors (also inside bind closures) are crash points too
+            p.w_memo = 3;
             p.random_teardown_pct = 0;
         }
         "C20" => {
